@@ -84,6 +84,27 @@ def evalFn (fn : String) (w : Nat) (sg : Bool) (pa pb : Nat) : Option R :=
   | "sgn" => some (.val (sgn sg a))
   | _ => none
 
+/-- S(w): the structured `w`-bit patterns of the `sm` op (same list, same order as
+    `structured()` in harness/c20.cpp) -/
+def structured (w : Nat) : List Nat :=
+  let M := 2 ^ w - 1
+  ((List.range w).flatMap fun i => [(2 ^ i + M) % 2 ^ w, 2 ^ i % 2 ^ w, (2 ^ i + 1) % 2 ^ w]) ++
+  [3 % 2 ^ w, 5 % 2 ^ w, 7 % 2 ^ w, 10 % 2 ^ w] ++ [M, M - 1, M - 2, M - 3] ++ [M / 3, 2 * (M / 3), M / 5]
+
+/-- mixed-type `div_ceil` / `round_up`: `n : (wn, sn)`, `k : (wk, sk)`; same domain rule as `evalFn` -/
+def evalMixed (fn : String) (wn : Nat) (sn : Bool) (wk : Nat) (sk : Bool) (pa pb : Nat) : Option R :=
+  let a : BitVec wn := BitVec.ofNat wn pa
+  let b : BitVec wk := BitVec.ofNat wk pb
+  let A := val sn a
+  let B := val sk b
+  if fn ≠ "divceil" && fn ≠ "roundup" then none else
+  if A < 0 || B ≤ 0 then some .skip else
+  let want := if fn = "divceil" then ceilDiv A B else ceilDiv A B * B
+  let rs := commSg wn sn wk sk
+  let rmax : Int := 2 ^ (if rs then commW wn wk - 1 else commW wn wk) - 1
+  if rs && want > rmax then some .skip
+  else some (.val (val rs (if fn = "divceil" then divCeilMixed sn a sk b else roundUpMixed sn a sk b)))
+
 def twoArgs (fn : String) : Bool :=
   fn = "rol" || fn = "rol_g" || fn = "ror" || fn = "ror_g" || fn = "divceil" || fn = "roundup" || fn = "absdiff"
 
